@@ -230,6 +230,7 @@ func runCase(c Case) (*ev.Failure, bool) {
 		if _, err := ep.SendSet(set); err != nil {
 			return ev.Failf("%s: SendSet over %s failed: %v", what, c.Transport, err)
 		}
+		exph.ReleaseAdopted()
 		if gentle {
 			time.Sleep(5 * time.Millisecond)
 		}
